@@ -28,12 +28,15 @@ RULE = ("seg: byte strings (even/odd length, empty, partial trailing code, inval
         "(bfchar, bfrange increment with and without carry, bfrange array, 1/2/3-byte sources, multi-character and "
         "surrogate-pair targets, redefinitions) plus a malformed stream; widths: W/W2 arrays interleaving both "
         "syntaxes, cid 0, floats, missing terminals, wrong types, DW/DW2 present or absent; doc: PDFs with generated "
-        "Type0 fonts -> LTChar text/adv/matrix; ttf: generated cmap tables formats 0/2/4. A case is non-trivial when "
+        "Type0 fonts (incl. predefined -V CMaps showing rotated punctuation) -> LTChar text/adv/matrix; umapsel: which "
+        "CID->Unicode map a font picks (ToUnicode kind x collection x TrueType x writing mode); ttf: generated cmap "
+        "tables formats 0/2/4 and damaged copies. A case is non-trivial when "
         "it is a distinct input that yields >= 1 code / mapping / width entry")
 TRUSTED_BASE = [
-    "hand model lean/PdfVerif/Model/CIDFont.lean of cmapdb/pdffont/pdfdevice functions (correspondence is sampling)",
-    "tools/translate/gen_c07.py regenerates IDENTITY_ENCODER, the four identity CMap names of CMapDB.get_cmap and the "
-    "DW/DW2 defaults from the Python source",
+    "hand models lean/PdfVerif/Model/CIDFont.lean and Model/TrueTypeCmap.lean of cmapdb/pdffont/pdfdevice functions "
+    "(correspondence is sampling)",
+    "tools/translate/gen_c07.py regenerates IDENTITY_ENCODER, the four identity CMap names of CMapDB.get_cmap, the "
+    "DW/DW2 defaults, the TrueType collections tuple and the writing-mode argument of get_unicode_map from the source",
     "Python twin of the Lean spec in tools/harness/props/c07.py (compared with the Lean spec on every case)",
     "PSStackParser tokenisation of ToUnicode streams is not modelled: the model starts from the token list "
     "(hex strings, integers, names, arrays, keywords); streams are serialised from tokens in one fixed spelling",
@@ -69,9 +72,18 @@ STATEMENT_STATUS: Dict[str, str] = {
     "horizontal_advance": "proved (Tc = 0, Tz = 100)",
     "glyph_placement": "proved",
     "vertical_default": "proved over the regenerated DW2 default",
-    "future work": "bfrange_inc as ISO's last-byte increment (incLast) = carry form when the last byte does not overflow; "
-                   "utf16 round trip utf16Ignore (utf16Encode cps) = cps; get_widths2 = spec for W2; TrueType cmap "
-                   "formats 0/2/4 are checked on the implementation only (no Lean model)",
+    "collection_map_follows_wmode": "proved over the regenerated call CMapDB.get_unicode_map(self.cidcoding, "
+                                    "self.cmap.is_vertical()): a vertical CMap reads the collection's vertical table",
+    "unicode_map_priority": "proved: ToUnicode stream first; Adobe-Identity / Adobe-UCS use the TrueType cmap",
+    "bfrange_inc": "proved: ISO's last-byte increment (incLast), wherever defined, equals the carry form (incBE)",
+    "bfrange_inc_pairs": "proved: a range whose last byte never overflows maps lo+i to dst with the last byte + i",
+    "widths2_map_spec": "proved: get_widths2(render W2) = specified dictionary, any interleaving of both syntaxes",
+    "widths2_spec": "proved: w1y of a cid = latest W2 entry, else DW2[1], else -1000 (regenerated default)",
+    "trie_build_codes": "proved: a trie built by add_code2cid from a prefix-free table has the table's codes",
+    "trie_build_decode": "proved: CMap.decode on the built trie = CIDs of the table's codes",
+    "future work": "utf16 round trip utf16Ignore (utf16Encode cps) = cps; theorems over the Lean model of "
+                   "TrueTypeFont.create_unicode_map (formats 0/2/4 are modelled and tie-checked incl. damaged files, "
+                   "and checked against independently built tables on the implementation, but no theorem)",
 }
 
 logging.getLogger("pdfminer").setLevel(logging.CRITICAL)
@@ -1026,10 +1038,81 @@ def run_fontwidth(ctx: C.Ctx) -> None:
                 ctx.disagree("fontwidth.model", inp, got, out)
 
 
+def build_cidfont(enc: str, registry: str, ordering: str, tu=None, ttf: Optional[bytes] = None, extra=None):
+    """A PDFCIDFont built directly from a font dictionary (no PDF file)."""
+    from pdfminer.pdffont import PDFCIDFont
+    from pdfminer.pdftypes import PDFStream
+    from pdfminer.psparser import LIT
+    spec: Dict[str, Any] = {"Type": LIT("Font"), "Subtype": LIT("CIDFontType2"), "BaseFont": LIT("X"),
+                            "CIDSystemInfo": {"Registry": registry.encode(), "Ordering": ordering.encode(),
+                                              "Supplement": 0},
+                            "Encoding": LIT(enc), "FontDescriptor": {}}
+    if tu == "stream":
+        spec["ToUnicode"] = PDFStream({}, toks_stream(render_sections([("C", [(b"\x00\x01", b"\x00A")])])))
+    elif tu is not None:
+        spec["ToUnicode"] = LIT(tu)
+    if ttf is not None:
+        spec["FontDescriptor"] = {"FontFile2": PDFStream({}, ttf)}
+    spec.update(extra or {})
+    return PDFCIDFont(None, spec)
+
+
+def describe_umap(font, tu, has_ttf) -> str:
+    from pdfminer import cmapdb
+    um = font.unicode_map
+    if um is None:
+        return "S none"
+    if isinstance(um, cmapdb.IdentityUnicodeMap):
+        return "S identity"
+    if isinstance(um, cmapdb.PyUnicodeMap):
+        return "S coll:%s:%s" % (um.attrs.get("CMapName"), "V" if um.is_vertical() else "H")
+    if isinstance(um, cmapdb.FileUnicodeMap):
+        return "S file" if tu == "stream" else "S ttf"
+    return "S ?" + type(um).__name__
+
+
+def run_umapsel(ctx: C.Ctx) -> None:
+    """Which CID -> Unicode map PDFCIDFont picks (ToUnicode stream / name, TrueType cmap, collection x WMode):
+    implementation vs model (tie) and vs the property (collection map of a vertical CMap is the vertical one)."""
+    b = Batch(ctx)
+    shipped = {f[len("to-unicode-"):-10] for f in os.listdir(os.path.join(C.REPO, "pdfminer", "cmap"))
+               if f.startswith("to-unicode-")}
+    ttf = build_ttf([(3, 1, build_cmap_format0({65: 3}))])
+    encs = ["Identity-H", "Identity-V", "90ms-RKSJ-V", "90ms-RKSJ-H", "UniGB-UCS2-V", "KSCms-UHC-V", "ETen-B5-V", "H", "V"]
+    avail = set(all_cmap_names())
+    for enc in encs:
+        if enc not in avail and not enc.startswith("Identity"):
+            continue
+        for ordering in ["Identity", "UCS", "Japan1", "GB1", "CNS1", "Korea1", "Foo"]:
+            for tu in [None, "stream", "Identity-H", "Foo"]:
+                for has_ttf in (False, True):
+                    coding = "Adobe-" + ordering
+                    vert = enc.endswith("V")
+                    font, e = call(lambda: build_cidfont(enc, "Adobe", ordering, tu, ttf if has_ttf else None))
+                    inp = {"group": "umapsel", "enc": enc, "ordering": ordering, "tu": tu, "ttf": has_ttf}
+                    out = describe_umap(font, tu, has_ttf) if e is None else exc_line(e)
+                    tuw = "-" if tu is None else "s" if tu == "stream" else "n:" + tu.encode().hex()
+                    b.tie("umapsel.model", "umapsel %s %s %s %s %d %d %d" % (
+                        tuw, ordering.encode().hex(), coding.encode().hex(), enc.encode().hex(), has_ttf, vert,
+                        coding in shipped), out, inp)
+                    ctx.case(("umapsel", enc, ordering, tu, has_ttf), True, branch="umapsel:" + out.split(":")[0])
+                    # the property: without ToUnicode, a CJK collection font reads the collection's table for the
+                    # writing mode of its encoding CMap
+                    if tu is None and coding in shipped:
+                        want = "S coll:%s:%s" % (coding, "V" if vert else "H")
+                        if out != want:
+                            ctx.fail(C.Failure("CID font does not use the character collection's Unicode table of "
+                                               "its CMap's writing mode", inp, want, out,
+                                               {"group": "umapsel", "vertical": vert}))
+    b.flush()
+
+
 # =========================================================================== codec: data check of the shipped pickles
 # (a TEST, not a theorem): for every character of the repertoire that the platform codec can encode, the predefined
 # CMap must split the codec's bytes into exactly one code and the collection's Unicode map must give the character back.
 
+# brackets and punctuation whose glyphs are rotated (different CIDs) under the vertical CMaps
+PUNCT = [ord(c) for c in "「」『』（）【】〈〉《》〔〕｛｝、。"]
 KANA = list(range(0x3041, 0x3094)) + list(range(0x30A1, 0x30F7))
 HANGUL = list(range(0xAC00, 0xD7A4))
 UNIHAN = list(range(0x4E00, 0x9FA6))
@@ -1064,6 +1147,8 @@ CODEC_PAIRS = [
     ("KSCms-UHC-H", "cp949", "Adobe-Korea1", "KHU", "cp949"), ("KSCms-UHC-V", "cp949", "Adobe-Korea1", "KHU", "cp949"),
     ("UniKS-UCS2-H", "utf_16_be", "Adobe-Korea1", "KHU", "cp949"), ("UniKS-UTF16-H", "utf_16_be", "Adobe-Korea1", "KHU", "cp949"),
     ("UniKS-UCS2-V", "utf_16_be", "Adobe-Korea1", "KHU", "cp949"),
+    ("UniGB-UCS2-V", "utf_16_be", "Adobe-GB1", "KU", "gbk"), ("UniCNS-UCS2-V", "utf_16_be", "Adobe-CNS1", "U", "big5"),
+    ("V", "iso2022_jp", "Adobe-Japan1", "KU", "shift_jis"), ("B5pc-V", "big5", "Adobe-CNS1", "U", "big5"),
 ]
 
 # Differences that are properties of the character collections, not of pdfminer (each justified):
@@ -1093,22 +1178,33 @@ def encode_for(cmap_name: str, codec: str, ch: str) -> Optional[bytes]:
         return None
 
 
-def codec_case(name: str, codec: str, coll: str, cp: int):
+def codec_case(name: str, codec: str, coll: str, cp: int, font=None):
     """Returns None when fine / whitelisted, else (expected, got)."""
     from pdfminer.cmapdb import CMapDB
     ch = chr(cp)
     data = encode_for(name, codec, ch)
     if data is None:
         return "skip"
-    cm = CMapDB.get_cmap(name)
-    cids = list(cm.decode(data))
-    if len(cids) != 1:
-        return (ch, "cids=%r" % (cids,))
-    um = CMapDB.get_unicode_map(coll, cm.is_vertical())
-    try:
-        t = um.get_unichr(cids[0])
-    except KeyError:
-        return (ch, "cid %d has no Unicode" % cids[0])
+    if font is not None:
+        # through the font object: PDFCIDFont picks the CMap and the collection table itself
+        from pdfminer.pdffont import PDFUnicodeNotDefined
+        cids = list(font.decode(data))
+        if len(cids) != 1:
+            return (ch, "cids=%r" % (cids,))
+        try:
+            t = font.to_unichr(cids[0])
+        except PDFUnicodeNotDefined:
+            return (ch, "cid %d has no Unicode" % cids[0])
+    else:
+        cm = CMapDB.get_cmap(name)
+        cids = list(cm.decode(data))
+        if len(cids) != 1:
+            return (ch, "cids=%r" % (cids,))
+        um = CMapDB.get_unicode_map(coll, cm.is_vertical())
+        try:
+            t = um.get_unichr(cids[0])
+        except KeyError:
+            return (ch, "cid %d has no Unicode" % cids[0])
     if t == ch:
         return None
     if unicodedata.normalize("NFKC", t) == ch:
@@ -1120,6 +1216,7 @@ def codec_case(name: str, codec: str, coll: str, cp: int):
 
 def repertoire(classes: str, member_codec: str) -> List[int]:
     cps: List[int] = []
+    cps += PUNCT
     if "K" in classes:
         cps += KANA
     if "H" in classes:
@@ -1146,21 +1243,26 @@ def run_codec(ctx: C.Ctx) -> None:
             sample = sample + [c for c in CODEC_HOT.get(name, []) if c not in sample]
         bad = []
         cnt = {"ok": 0, "nfkc": 0, "whitelist": 0, "skip": 0}
-        for cp in sample:
-            r = codec_case(name, codec, coll, cp)
+        font = build_cidfont(name, "Adobe", coll[len("Adobe-"):])
+        if ctx.tier != "thorough":
+            sample = sample + [c for c in PUNCT if c in rep and c not in sample]
+        for k, cp in enumerate(sample):
+            via = k % 2 == 0 or cp in PUNCT
+            r = codec_case(name, codec, coll, cp, font if via else None)
             if r is None:
                 cnt["ok"] += 1
             elif isinstance(r, str):
                 cnt[r] += 1
             else:
-                bad.append((cp, r))
+                bad.append((cp, r, via))
         ctx.evaluations += len(sample)
         ctx.branch("codec:" + name, len(sample))
         ctx._distinct.add(("codec", name).__hash__().to_bytes(8, "big", signed=True))
         stats[name] = dict(cnt, checked=len(sample), bad=len(bad))
-        for cp, (exp, got) in bad[:12]:
+        for cp, (exp, got), via in bad[:12]:
             ctx.fail(C.Failure("predefined CJK CMap / collection map disagrees with the platform codec (data check)",
-                               {"group": "codec", "cmap": name, "codec": codec, "collection": coll, "cp": cp},
+                               {"group": "codec", "cmap": name, "codec": codec, "collection": coll, "cp": cp,
+                                "via_font": via},
                                exp, got, {"group": "codec", "cmap": name, "cp": cp, "collection": coll,
                                           "no_unicode": "has no Unicode" in got}))
     ctx.extra["codec_data_check"] = {"kind": "test (not a theorem)", "exhaustive": ctx.tier == "thorough", "pairs": stats}
@@ -1318,12 +1420,46 @@ def ttf_preimages(cfg) -> Dict[int, set]:
     return pre
 
 
-def run_ttf(ctx: C.Ctx) -> None:
+def impl_ttf_line(data: bytes) -> str:
     from pdfminer.pdffont import TrueTypeFont
+    um, e = call(lambda: TrueTypeFont("F", io.BytesIO(data)).create_unicode_map())
+    if e is not None:
+        return exc_line(e)
+    return map_line({k: [ord(ch) for ch in v] for k, v in um.cid2unichr.items()})
+
+
+def run_ttf(ctx: C.Ctx) -> None:
     rng = ctx.rng
-    for _ in range(ctx.n(150, 5000)):
+    b = Batch(ctx)
+    for i in range(ctx.n(150, 5000)):
         cfg = gen_ttf(rng)
         check_ttf(ctx, cfg)
+        data = ttf_bytes(cfg)
+        b.tie("ttf.model", "ttf " + data.hex(), impl_ttf_line(data), {"group": "ttf", "ttf": cfg})
+        # damaged files: truncation, flipped bytes, unknown format (tie only; error kinds must agree)
+        for _ in range(2):
+            d = bytearray(data)
+            r = rng.random()
+            if r < 0.4:
+                d = d[:rng.randint(0, len(d))]
+            elif r < 0.8:
+                for _ in range(rng.randint(1, 3)):
+                    d[rng.randrange(len(d))] = rng.choice([0, 1, 2, 4, 6, 0xFF, rng.randrange(256)])
+            else:
+                d += bytes(rng.randrange(256) for _ in range(rng.randint(1, 8)))
+            d = bytes(d)
+            import time as _t
+            t0 = _t.time()
+            out = impl_ttf_line(d)
+            if _t.time() - t0 > 0.03 or len(out) > 40000:
+                # a damaged segment spanning tens of thousands of characters: the list-based model is quadratic
+                # there, so such files are left to the implementation-only checks
+                ctx.branch("ttfwild:skipped-large")
+                continue
+            b.tie("ttf.model", "ttf " + C.hx(d), out, {"group": "ttf.wild", "data": d.hex()})
+            ctx.case(("ttfw", d), not out.startswith("E "),
+                     branch="ttfwild:" + (out.split(" ")[1] if out.startswith("E ") else "map"))
+    b.flush()
 
 
 def check_ttf(ctx: C.Ctx, cfg) -> None:
@@ -1358,8 +1494,13 @@ def check_ttf(ctx: C.Ctx, cfg) -> None:
 CJK_DOC = [("90ms-RKSJ-H", "cp932", "Japan1"), ("EUC-H", "euc_jp", "Japan1"), ("UniJIS-UCS2-H", "utf_16_be", "Japan1"),
            ("UniJIS-UCS2-V", "utf_16_be", "Japan1"), ("GBK-EUC-H", "gbk", "GB1"), ("B5pc-H", "big5", "CNS1"),
            ("KSCms-UHC-H", "cp949", "Korea1"), ("UniKS-UCS2-V", "utf_16_be", "Korea1"), ("UniGB-UCS2-H", "utf_16_be", "GB1"),
-           ("90ms-RKSJ-V", "cp932", "Japan1")]
-CJK_CHARS = {"Japan1": "あいアカ漢字日本語一", "GB1": "中文汉字一丁七", "CNS1": "中文漢字一丁七", "Korea1": "한글가각漢字一"}
+           ("90ms-RKSJ-V", "cp932", "Japan1"), ("EUC-V", "euc_jp", "Japan1"), ("GBK-EUC-V", "gbk", "GB1"),
+           ("ETen-B5-V", "big5", "CNS1"), ("KSCms-UHC-V", "cp949", "Korea1"), ("UniGB-UCS2-V", "utf_16_be", "GB1"),
+           ("UniCNS-UCS2-V", "utf_16_be", "CNS1")]
+# brackets / punctuation have rotated glyphs (other CIDs) under the -V CMaps: their text must come from the
+# VERTICAL CID -> Unicode table of the collection
+CJK_CHARS = {"Japan1": "あいアカ漢字日本語一「」（）、。ー『』", "GB1": "中文汉字一丁七「」（）、。【】",
+             "CNS1": "中文漢字一丁七「」（）『』【】", "Korea1": "한글가각漢字一「」（）、。【】"}
 
 
 def gen_doc(rng) -> Dict[str, Any]:
@@ -1707,6 +1848,12 @@ CLASSIFIERS = {
                                                        and f.tags.get("collection") == "Adobe-Japan1"
                                                        and f.tags.get("no_unicode") is True
                                                        and f.tags.get("cp") in JAPAN1_NO_UNICODE),
+    # Mac KS encoding: U+3001 / U+3002 reach proportional-punctuation CIDs 8283 / 8284 that the shipped
+    # to-unicode-Adobe-Korea1 pickle does not cover
+    "c07_korea1_kscpc_cid_without_unicode": lambda f: (f.tags.get("group") == "codec"
+                                                      and str(f.tags.get("cmap", "")).startswith("KSCpc-EUC")
+                                                      and f.tags.get("no_unicode") is True
+                                                      and f.tags.get("cp") in (0x3001, 0x3002)),
 }
 
 
@@ -1728,12 +1875,22 @@ def replay(ctx: C.Ctx, doc, from_corpus: bool = False) -> None:
     elif g == "ttf":
         check_ttf(ctx, inp["ttf"])
     elif g == "codec":
-        r = codec_case(inp["cmap"], inp["codec"], inp["collection"], inp["cp"])
+        font = build_cidfont(inp["cmap"], "Adobe", inp["collection"][len("Adobe-"):]) if inp.get("via_font") else None
+        r = codec_case(inp["cmap"], inp["codec"], inp["collection"], inp["cp"], font)
         ctx.case(("codec", inp["cmap"], inp["cp"]), True)
         if r is not None and not isinstance(r, str):
             ctx.fail(C.Failure("predefined CJK CMap / collection map disagrees with the platform codec (data check)",
                                inp, r[0], r[1], {"group": "codec", "cmap": inp["cmap"], "cp": inp["cp"],
                                                  "collection": inp["collection"], "no_unicode": "has no Unicode" in r[1]}))
+    elif g == "umapsel":
+        ttf = build_ttf([(3, 1, build_cmap_format0({65: 3}))])
+        font, e = call(lambda: build_cidfont(inp["enc"], "Adobe", inp["ordering"], inp["tu"], ttf if inp["ttf"] else None))
+        out = describe_umap(font, inp["tu"], inp["ttf"]) if e is None else exc_line(e)
+        want = "S coll:Adobe-%s:%s" % (inp["ordering"], "V" if inp["enc"].endswith("V") else "H")
+        ctx.case(("umapsel", json.dumps(inp, sort_keys=True)), True)
+        if inp["tu"] is None and out != want:
+            ctx.fail(C.Failure("CID font does not use the character collection's Unicode table of its CMap's "
+                               "writing mode", inp, want, out, {"group": "umapsel", "vertical": inp["enc"].endswith("V")}))
     elif g == "fontwidth":
         from pdfminer.pdffont import PDFCIDFont
         from pdfminer.psparser import LIT
@@ -1804,6 +1961,7 @@ def run(ctx: C.Ctx) -> None:
     run_seg(ctx)
     run_tounicode(ctx)
     run_widths(ctx)
+    run_umapsel(ctx)
     run_fontwidth(ctx)
     run_ttf(ctx)
     run_doc(ctx)
